@@ -13,9 +13,9 @@ same fact).  Helper lemmas: `Proofs/C01.lean`.
 ASSEMBLED here (all inputs, no bounds):
 * `parse_layout_trapfree`, `parse_bytes_trapfree`, `layout_from_header_trapfree`
 * `cursor_ops_trapfree`, `opened_cursor_ops_trapfree`, `cursor_ops_with_rewinds_trapfree`
-* `decode_geometry_trapfree`, `every_format_has_a_decoder`, `decode_addresses_in_view`
+* `decode_geometry_trapfree`, `every_format_has_a_decoder`, `decode_addresses_in_view`,
+  `decode_addresses_planar` (bi-planar family, assembled since `C05.rect_eq_crop_planar`)
 * `truncated_is_io_error`, `fault_is_io_error`, `no_success_on_short_stream`
-PARTIAL (gap named at the theorem): `decode_addresses_planar_partial`.
 
 Termination (remark, not a theorem): every definition of `Header.lean`, `HeaderTables.lean`,
 `FormatTables.lean`, `Layout.lean`, `Iter.lean`, `Stream.lean`, `Addr.lean`, `Decoder.lean` and
@@ -229,17 +229,54 @@ theorem decode_addresses_in_view :
     exact (C05.rect_eq_crop_block p g fastAt fastAt conv false nbpp nbpp W H ok (by intro h; cases h) hx hy).2.2.1
       r hr pitch obpp hp
 
-/-- Bi-planar family, PARTIAL: only the per-row helper (`process_bi_planar_helper`, 2-wide chroma) is
-covered — every run it emits lies in `[0, w)` of the output row and all of `[0, w)` is covered.
-GAP (as in `C05.rect_eq_crop_planar_partial`): the `y_offset` loops of `for_each_bi_planar{,_rect}` and the
-chunking of `ChannelConversionBuffer::process_bi_planar` are not assembled into a statement about whole
-views; their slice ranges are exercised by the tie (NV12 / P010 / P016, all 12 colours, odd sizes,
-rects at every offset parity) on both build profiles. -/
-theorem decode_addresses_planar_partial (ox w yoff : Nat) :
-    (∀ r ∈ Addr.planarHelper 2 (ox % 2) w yoff, ∀ col, r.col ≤ col → col < r.col + r.n → col < w) ∧
-    (∀ c, c < w → ∃ r ∈ Addr.planarHelper 2 (ox % 2) w yoff, r.col ≤ c ∧ c < r.col + r.n) := by
-  have h := C05.rect_eq_crop_planar_partial ox w yoff 0 0 0
-  exact ⟨fun r hr col h1 h2 => (h.1 r hr col h1 h2).1, h.2⟩
+/-- **Bi-planar family: every address inside the view, every sample inside its plane.**  For every
+bi-planar family the format table could hold (`Fam.WF`: sub-sampling `1 ≤ sx, sy ≤ 15`; shipped `(2, 2)`),
+every native pixel size `1..16` bytes, conversion on or off, every surface `W × H` and every rectangle
+inside it: each write of `for_each_bi_planar_rect` goes to a row `< h` and to bytes inside
+`[row·pitch, row·pitch + w·bpp)` for every pitch `≥ w·bpp` (`get_row(y - offset.y)` and the chunk slicing of
+`process_bi_planar` never leave the row), every luma sample read is `(x < W, y < H)` and every chroma sample
+`(x < div_ceil(W, sx), y < div_ceil(H, sy))` (the `plane1` / `uv_line` slices are long enough), and
+`step_by(preferred_chunk_size)` is never called with 0; the same for the full decode `for_each_bi_planar`.
+(From `C05.rect_eq_crop_planar`, which now assembles the `y_offset` loops and the conversion chunks.) -/
+theorem decode_addresses_planar (e1 e2 sx sy : Nat) (hf : (Fam.biPlanar e1 e2 sx sy).WF) (conv : Bool)
+    (nbpp : Nat) (hn : 0 < nbpp) (hn16 : nbpp ≤ 16) (W H ox oy w h : Nat) (hx : ox + w ≤ W) (hy : oy + h ≤ H) :
+    0 < Addr.roundDown (Addr.BUFFER_BYTES / nbpp) sx ∧
+    (∀ r ∈ Addr.planarRect conv nbpp ⟨sx, sy, H, ox, oy, w, h⟩,
+      (∀ pitch obpp, w * obpp ≤ pitch →
+        r.row < h ∧ r.row * pitch ≤ r.byteLo pitch obpp ∧ r.byteHi pitch obpp ≤ r.row * pitch + w * obpp) ∧
+      r.ly < H ∧ r.cy < divCeil H sy ∧
+      ∀ t, t < r.n → r.lx + t < W ∧ r.cx + (r.px + t) / sx < divCeil W sx) ∧
+    (∀ r ∈ Addr.planarFull conv nbpp sx sy W H,
+      (∀ pitch obpp, W * obpp ≤ pitch →
+        r.row < H ∧ r.row * pitch ≤ r.byteLo pitch obpp ∧ r.byteHi pitch obpp ≤ r.row * pitch + W * obpp) ∧
+      r.ly < H ∧ r.cy < divCeil H sy ∧
+      ∀ t, t < r.n → r.lx + t < W ∧ r.cx + (r.px + t) / sx < divCeil W sx) := by
+  obtain ⟨_, _, _, _, hsx, hsx16, hsy, _⟩ := hf
+  have hbuf : sx ≤ Addr.BUFFER_BYTES / nbpp := by
+    rw [Nat.le_div_iff_mul_le hn]
+    have : sx * nbpp ≤ 15 * 16 := Nat.mul_le_mul (by omega) hn16
+    have : Addr.BUFFER_BYTES = 3072 := rfl
+    omega
+  have ok : Addr.PlOk sx sy conv nbpp := ⟨hsx, hsy, fun _ => hbuf⟩
+  refine ⟨(Addr.roundDown_props hsx hbuf).1, ?_, ?_⟩
+  · intro r hr
+    obtain ⟨_, _, c3, c4⟩ := C05.rect_eq_crop_planar ⟨sx, sy, H, ox, oy, w, h⟩ conv conv nbpp nbpp W ok ok hx hy
+    obtain ⟨_, d2, d3, d4⟩ := c4 r hr
+    exact ⟨c3 r hr, d2, d3, d4⟩
+  · intro r hr
+    have hs := Addr.planarFull_sound conv nbpp sx sy W H ok
+    obtain ⟨h1, h2, h3, h4, h5, h6, h7, h8, h9⟩ := hs r hr
+    have hcy : r.cy * sy ≤ 0 + r.row := by rw [h8]; exact Nat.div_mul_le_self _ _
+    refine ⟨?_, by omega, by rw [Addr.lt_divCeil_iff hsy]; omega, ?_⟩
+    · intro pitch obpp hp
+      obtain ⟨b1, _, b3, _⟩ := Addr.plRun_bytes_in_row pitch obpp W r hp h2
+      exact ⟨h1, b1, b3⟩
+    · intro t ht
+      have e0 : (r.px + t) / sx = 0 := Nat.div_eq_of_lt (by omega)
+      refine ⟨by omega, ?_⟩
+      rw [e0, Nat.add_zero, Addr.lt_divCeil_iff hsx]; omega
+
+example : (Fam.biPlanar 1 2 2 2).WF ∧ (0 : Nat) < 4 ∧ (4 : Nat) ≤ 16 ∧ (1 : Nat) + 3 ≤ 5 ∧ (1 : Nat) + 2 ≤ 3 := by decide
 
 /-! ## 4. truncated data and reader errors -/
 
